@@ -497,3 +497,65 @@ pub async fn wipeout(w: &mut World, m: &mut Mon, r: &mut R, g: usize, lender: us
     }
     Some(db)
 }
+
+/// C04 portfolio probe: 1-3 collateral deposits, then 1-3 debts opened one after the other (any
+/// bank, isolated tier included), each bisected to its exact accept/reject boundary; finally the
+/// withdraw boundary of every collateral. Exercises e-mode intersections, caps, tiers.
+pub async fn portfolio(w: &mut World, m: &mut Mon, r: &mut R, g: usize, lender: usize) {
+    let fund = 1u64 << 40;
+    let u = w.add_user(fund).await;
+    let a = w.add_account(g, u).await;
+    let auth = w.auth_of(a);
+    let ak = auth.pubkey();
+    let nb = w.banks.len();
+    let mut cols: Vec<usize> = (0..nb).filter(|b| usable_collateral(w, *b)).collect();
+    if cols.is_empty() {
+        return;
+    }
+    let kc = r.gen_range(1..=cols.len().min(3));
+    let mut chosen = vec![];
+    for _ in 0..kc {
+        let i = r.gen_range(0..cols.len());
+        chosen.push(cols.remove(i));
+    }
+    for c in &chosen {
+        let amt = pick(r, &[5_000_000u64, 200_000_000, 1 << 32, 1 << 36]);
+        let i = w.ix_deposit(a, *c, ak, w.ta_of(a, *c), amt, None);
+        let _ = w.exec(m, &[i], &[&auth]).await;
+    }
+    let mut debts: Vec<usize> = (0..nb).filter(|b| !chosen.contains(b) && w.bank(*b).config.operational_state == BankOperationalState::Operational && w.bank(*b).config.asset_tag <= 1).collect();
+    let kd = r.gen_range(1..=debts.len().min(3).max(1));
+    let lk = w.auth_of(lender);
+    for _ in 0..kd {
+        if debts.is_empty() {
+            break;
+        }
+        let i = r.gen_range(0..debts.len());
+        let db = debts.remove(i);
+        if w.token(&w.banks[db].k.lv) < fund / 8 {
+            let ixd = w.ix_deposit(lender, db, lk.pubkey(), w.ta_of(lender, db), fund / 4, None);
+            let _ = w.exec(m, &[ixd], &[&lk]).await;
+        }
+        let hi = w.token(&w.banks[db].k.lv);
+        let ta = w.ta_of(a, db);
+        let mx = bisect_max(w, m, &[&auth], hi, |w, x| vec![w.ix_borrow(a, db, ak, ta, x)]).await;
+        m.r.count(if mx.is_some() { "scen.portfolio_borrow_boundary_found" } else { "scen.portfolio_borrow_not_possible" });
+        if let Some(mx) = mx {
+            let amt = ((mx as f64) * pick(r, &[0.3f64, 0.6, 0.9, 1.0])) as u64;
+            let i = w.ix_borrow(a, db, ak, ta, amt.clamp(1, mx));
+            let _ = w.exec(m, &[i], &[&auth]).await;
+        }
+    }
+    for c in &chosen {
+        let acc = w.acct(a);
+        let q = BankQ::of(&w.bank(*c));
+        let pos: u64 = acc.lending_account.balances.iter().find(|b| b.active != 0 && b.bank_pk == w.banks[*c].key).map(|b| to_u64_floor(&(fx(&b.asset_shares.value) * &q.asv)).unwrap_or(0)).unwrap_or(0);
+        let ta = w.ta_of(a, *c);
+        let cc = *c;
+        let mx = bisect_max(w, m, &[&auth], pos, |w, x| vec![w.ix_withdraw(a, cc, ak, ta, x, None)]).await;
+        if mx.is_some() {
+            m.r.count("scen.withdraw_boundary_found");
+        }
+    }
+    m.r.count("scen.portfolios");
+}
